@@ -418,3 +418,38 @@ for _explicit in (False, True):
         ensures=[("C14.required_total_is_%s_times_the_budget_factor" % ("the_given_total" if _explicit else "the_current_spending_of_the_adjustable_programs"),
                   "len(hard_constraints['initial_total_spend'][2020.0]) == 1 and hard_constraints['initial_total_spend'][2020.0][0] == %s * bf" % ("given" if _explicit else "(sp[0] + sp[1])"))],
         defined_props=["C14"])
+
+
+# ---- SpendingPackageAdjustment.get_total_spend / set_total_spend (C14: "spending packages keep ... the package total within its limits";
+# TotalSpendConstraint.constrain_instructions writes a package's rescaled amount back through set_total_spend): for two member programs
+# with spending series at the package year, the package total afterwards IS the amount given and the members keep their shares
+def _env_pkg_total(it):
+    from pyvc.interp import PyObjV
+    from pyvc.core import LArr
+    from pyvc import source
+
+    om, um = source.load("optimization"), source.load("utils")
+    T = 2020.0
+    cur = [z3.Real("cur_%d" % i) for i in range(2)]
+    other = [z3.Real("other_%d" % i) for i in range(2)]
+    ini = [z3.Real("initial_%d" % i) for i in range(2)]
+    ts = lambda i: PyObjV("TimeSeries", um, {"t": [T, 2030.0], "vals": [cur[i], other[i]], "units": "$", "assumption": None, "sigma": None, "_sampled": False})
+    instructions = PyObjV("ProgramInstructions", source.load("programs"), {"alloc": {"a": ts(0), "b": ts(1)}})
+    self = PyObjV("SpendingPackageAdjustment", om, {"name": "pkg", "prog_name": ["a", "b"], "t": T, "initial_spends": LArr(2, it._list_reader(ini))})
+    return {"self": self, "instructions": instructions, "cur": cur, "other": other}
+
+
+CONTRACTS["optimization:SpendingPackageAdjustment.get_total_spend"] = dict(
+    schema=schema, make_env=_env_pkg_total,
+    ensures=[("C14.package_total_is_the_current_spending_of_its_members_at_the_package_year", "result == cur[0] + cur[1]")],
+    defined_props=["C14"])
+CONTRACTS["optimization:SpendingPackageAdjustment.set_total_spend"] = dict(
+    schema=schema, make_env=_env_pkg_total, params={"total_spend": "real"},
+    requires=["cur[0] >= 0", "cur[1] >= 0", "total_spend >= 0"],
+    ensures=[
+        ("C14.the_package_total_becomes_the_amount_given", "implies(cur[0] + cur[1] > 0, (instructions.alloc['a'].get(2020.0) + instructions.alloc['b'].get(2020.0)) * (cur[0] + cur[1]) == total_spend * (cur[0] + cur[1]))"),
+        ("C14.members_keep_their_shares_of_the_package", "implies(cur[0] + cur[1] > 0, instructions.alloc['a'].get(2020.0) * (cur[0] + cur[1]) == cur[0] * total_spend and instructions.alloc['b'].get(2020.0) * (cur[0] + cur[1]) == cur[1] * total_spend)"),
+        ("C14.an_unfunded_package_stays_unfunded", "implies(cur[0] + cur[1] == 0, instructions.alloc['a'].get(2020.0) == 0 and instructions.alloc['b'].get(2020.0) == 0)"),
+        ("C14.other_years_are_left_alone", "instructions.alloc['a'].get(2030.0) == other[0] and instructions.alloc['b'].get(2030.0) == other[1] and len(instructions.alloc['a'].t) == 2"),
+    ],
+    defined_props=["C14"])
